@@ -34,7 +34,7 @@ PREM, CONC = 1e-9, 1e-6
 
 
 def holohedry(kind):
-    crys = geom.get_crystal({'cubic': 'sc', 'hex': 'hex1', 'cubic-rot': 'fcc111'}[kind])
+    crys = geom.get_crystal({'cubic': 'sc', 'hex': 'hex1', 'cubic-rot': 'fcc111', 'square2d': 'square', 'hex2d': 'tria'}[kind])
     ops = geom.sorted_ops(crys)
     return crys, ops
 
@@ -275,9 +275,10 @@ def sections(tier):
     S = run.Section
     secs = []
     nparts = 8
-    for kind in ('cubic', 'hex', 'cubic-rot'):
-        for part in range(nparts):
-            secs.append(S('subgroup:%s:%d' % (kind, part), subgroup_section(kind, part, nparts), budget_s=170 if tier == 'quick' else 3000,
+    for kind in ('cubic', 'hex', 'cubic-rot', 'square2d', 'hex2d'):
+        for part in range(nparts if kind not in ('square2d', 'hex2d') else 2):
+            np_ = nparts if kind not in ('square2d', 'hex2d') else 2
+            secs.append(S('subgroup:%s:%d' % (kind, part), subgroup_section(kind, part, np_), budget_s=170 if tier == 'quick' else 3000,
                           replayer='subgroup', config=kind, timeout_ms=20000, maxpaths=8))
     for c in (SITE_Q if tier == 'quick' else SITE_T):
         secs.append(S('site:' + c, site_section(c), budget_s=170 if tier == 'quick' else 3000, replayer='site', config=c, timeout_ms=20000, maxpaths=8))
@@ -302,7 +303,7 @@ def main():
                                                  crystal.CombineVectorBasis, crystal.CombineTensorBasis, C.VectorBasis, C.SymmTensorBasis,
                                                  C.genpoint, C.genWyckoffsets, C.Wyckoffpos, C.vectlist)],
         assumptions=[
-            'site groups: every subgroup of m-3m (%d; in the standard setting and in a rotated setting with generic axis directions) and 6/mmm (%d), enumerated by closure; vectors/tensors symbolic in [-1,1]; '
+            'site groups: every subgroup of m-3m (%d; in the standard setting and in a rotated setting with generic axis directions), of 6/mmm (%d) and of the 2-d holohedries 4mm and 6mm, enumerated by closure; vectors/tensors symbolic in [-1,1]; '
             '"invariant" premise to 1e-9, "in the span" conclusion to 1e-6 (Cartesian rotations of the hexagonal system are floats)' % (
                 len(subgroups('cubic')), len(subgroups('hex'))),
             'crystal sites enumerated from the crystal library; point group fixes its site for every lattice translation |R|<=1000',
